@@ -353,6 +353,13 @@ def ptrace_cvxpy(p):
         raise Violation("partial_trace(Variable) did not return a cvxpy expression")
     _close(np.asarray(got.value), R.ref_partial_trace(val, S, d), "partial_trace(cvxpy Variable)", 1e-10)
     _close(np.asarray(got.value), partial_trace(val, sys_arg, list(d)), "variable path == numeric path", 1e-12)
+    # the same Variable object again, with a different factorisation of the same size: the result must follow the arguments of THIS call
+    alts = [list(reversed(d))] + ([[d[0] * d[1]] + list(d[2:])] if len(d) >= 3 else []) + [[N]]
+    for d2 in alts:
+        if list(d2) == list(d) or max(S) >= len(d2):
+            continue
+        again = partial_trace(V, sys_arg if max(S) < len(d2) else [0], list(d2))
+        _close(np.asarray(again.value), R.ref_partial_trace(val, S, d2), "partial_trace(same Variable, other dim %s after %s)" % (d2, d), 1e-10)
 
 
 # ------------------------------------------------------------------------------------------ partial_transpose
@@ -490,7 +497,7 @@ def frame_args(p):
         args = [X, np.array(p.get("sys", [0])), dimarg]
         f = ch.partial_transpose
     elif fn == "partial_trace":
-        args = [X, list(p.get("sys", [0])), one_row]
+        args = [X, np.array(p.get("sys", [0])) if p.get("sys_array") else list(p.get("sys", [0])), one_row]
         f = ch.partial_trace
     elif fn == "realignment":
         args = [X, dimarg]
@@ -499,7 +506,7 @@ def frame_args(p):
         args = [X, np.array(p["perm"]), dimarg]
         f = pm.permute_systems
     elif fn == "swap":
-        args = [X, list(p.get("sys", [1, 2])), dimarg]
+        args = [X, np.array(p.get("sys", [1, 2])) if p.get("sys_array", True) else list(p.get("sys", [1, 2])), dimarg]
         f = pm.swap
     else:
         raise ValueError(fn)
